@@ -17,7 +17,7 @@ func (g *wgen) refType(d int) string {
 		return g.pick([]string{"java.util.List<String>", "java.lang.String", "java.util.Map.Entry<String, Integer>", "Map.Entry<K, V>", "Outer.Inner", "a.b.Ünit"})
 	case r.Chance(1, 14):
 		g.use("type-annotation-qualified")
-		return g.pick([]string{"java.lang.@NonNull String", "java.util.@Nullable List<String>", "Map.@A Entry<String, Integer>", 
+		return g.pick([]string{"java.lang.@NonNull String", "java.util.@Nullable List<String>", "Map.@A Entry<String, Integer>",
 			"java.lang.@NonNull(\"x\") String", "a.b.@Märker Ünit"})
 	case r.Chance(1, 14):
 		g.use("generic-outer-inner-type")
